@@ -75,6 +75,37 @@ def layout_case(h, kind):
         return dict(text=what + ' ' + kind, n=true_line)
     return case
 
+def include_case(h):
+    def case():
+        vm = h.new_vm(); h.reset_obs()
+        ka = C01.choose('ka', 3); kb = C01.choose('kb', 3); kr = C01.choose('kr', 3); where = C01.choose('where', 5); crlf = C01.choose('crlf', 2)
+        nl = b'\r\n' if crlf else b'\n'
+        fault = b'  [] select 5;'
+        b_lines = [b'// b %d' % i for i in range(kb)] + [b'xb = 1;'] + ([fault] if where == 0 else []) + [b'xb2 = 2;']
+        a_lines = [b'xa = %d;' % i for i in range(ka)] + ([fault] if where == 1 else []) + [b'#include "b.hpp"'] + ([fault] if where == 2 else [b'xa3 = 3;']) + [b'xa4 = 4;']
+        r_lines = [b'// root %d' % i for i in range(kr)] + ([fault] if where == 3 else []) + [b'#include "\\x\\mod\\a.hpp"'] + ([fault] if where == 4 else [b'xr = 1;']) + [b'trace__ [__LINE__, __FILE__];']
+        rt.VFS.clear()
+        rt.VFS[b'/p/mod/a.hpp'] = nl.join(a_lines) + nl; rt.VFS[b'/p/mod/b.hpp'] = nl.join(b_lines) + nl
+        h.add_mapping(vm, b'/p/mod', b'/x/mod')
+        files = {0: (b'/p/mod/b.hpp', b_lines), 1: (b'/p/mod/a.hpp', a_lines), 2: (b'/p/mod/a.hpp', a_lines), 3: (b'/p/root.sqf', r_lines), 4: (b'/p/root.sqf', r_lines)}
+        fname, flines = files[where]
+        true_line = [i for i, l in enumerate(flines) if l == fault][0] + 1
+        src = nl.join(r_lines) + nl
+        r = h.run_at(vm, src, b'/p/root.sqf', b'/root.sqf')
+        what = 'ka=%d kb=%d kr=%d fault in %s crlf=%d' % (ka, kb, kr, ['b.hpp', 'a.hpp before its include', 'a.hpp after its include', 'root before the include', 'root after the include'][where], crlf)
+        errs = [l for l in h.logs if l[0] in (0, 1)]
+        if not errs: rt.record_violation('assert', '%s: no diagnostic for the injected fault (result %d)' % (what, r))
+        for lvl, code, msg in errs[:2]:
+            m = re.match(r'\[L(\d+)\|C(\d+)\|([^\]]*)\]', msg)
+            if not m: continue
+            L, Cc, F = int(m.group(1)), int(m.group(2)), m.group(3)
+            if F.encode() != fname: rt.record_violation('assert', '%s: fault written in %s is reported in file %s' % (what, fname.decode(), F)); break
+            if L != true_line: rt.record_violation('assert', '%s: fault written on line %d of %s is reported on line %d' % (what, true_line, fname.decode(), L)); break
+            if Cc != 5: rt.record_violation('assert', '%s: fault in column 5 is reported in column %d' % (what, Cc)); break
+        for v in rt.PS.violations: v['src'] = src.decode('latin1'); v['files'] = {k.decode(): val.decode('latin1') for k, val in rt.VFS.items()}
+        return dict(text=what, n=true_line)
+    return case
+
 def replay(spec):
     import vmreplay
     if spec.get('kind') == 'layout':
@@ -110,4 +141,11 @@ def run(ctx):
     if r:
         ob, recs = r
         oblig.witness_check(ob, recs, lambda rr: rr['verdict'] == 'ok' and rr.get('n'), 'a layout whose diagnostic position was compared'); obs.append(ob)
+    r = oblig.run('include.e2e', [('inc', include_case(h))], ctx, funcs, 'root.sqf includes \\x\\mod\\a.hpp (virtual path through a mapping) which includes b.hpp (relative): 0-2 leading lines in each file, LF / CRLF, a runtime fault at one of 5 places (in b, in a before / after its include, in root before / after its include): 3*3*3*5*2 = 270 layouts',
+                  assumptions=['the file system behind std::ifstream / std::filesystem::path is the model in engine/vfs.py (trusted base)', 'allocation failure is out of scope'], case_timeout=2400,
+                  keyfn=lambda cid, v, rr: 'include.e2e:%s' % re.sub(r'\d+', '#', v.get('msg', '')[v.get('msg', '').find(': ') + 2:])[:80].replace(' ', '_'), step_limit=600_000_000, sample_fn=lambda rr: dict(layout=rr.get('text')) if rr.get('text') else None)
+    if r:
+        ob, recs = r
+        for v in ob['violations']: v['trust_without_replay'] = True
+        oblig.witness_check(ob, recs, lambda rr: rr['verdict'] == 'ok' and rr.get('n'), 'an include layout whose diagnostic position was compared'); obs.append(ob)
     return obs
